@@ -52,3 +52,38 @@ fn k_repo_expansion_and_categories() {
     kani::cover!(true, "reachable");
     core::mem::forget(r);
 }
+
+// ---------------- bounded stand-ins by native execution (format! is outside CBMC's budget) ----------------
+//@unit props=C15,C01 label=B tier=quick native=1 fn=repository::Repository::{index_filename,index2_filename,dat_filename} bound="exhaustive by execution: 15 categories x expansions 0..9 x chunks 0..255 x 5 platforms x data files 0..7"
+//@desc file names are the two-hex-digit category, two-digit expansion, two-digit chunk (the four hex digits of the patcher's sub id = expansion<<8 | chunk), platform tag, and for dat files the data-file number - exactly the names the patcher writes to ("{main:02x}{sub:04x}.{platform}.dat{n}"); distinct inputs give distinct names
+#[test]
+fn native_repo_filenames() {
+    use Category::*;
+    let cats = [Common, BackgroundCommon, Background, Cutscene, Character, Shader, UI, Sound, VFX, UIScript, EXD, GameScript, Music, SqPackTest, Debug];
+    let plats = [(Platform::Win32, "win32"), (Platform::PS3, "ps3"), (Platform::PS4, "ps4"), (Platform::PS5, "ps5"), (Platform::Xbox, "lys")];
+    let mut cases = 0u64;
+    let mut seen = std::collections::HashSet::new();
+    for (pf, tag) in plats.iter() {
+        for ex in 0..10i32 {
+            let r = Repository { name: String::new(), platform: pf.clone(), repo_type: if ex == 0 { Base } else { Expansion { number: ex } }, version: None };
+            for cat in cats.iter() {
+                for chunk in 0..=255u8 {
+                    let sub = ((ex as u16) << 8) | chunk as u16;
+                    let stem = format!("{:02x}{:04x}.{}", *cat as u16, sub, tag);
+                    let i1 = r.index_filename(chunk, *cat);
+                    let i2 = r.index2_filename(chunk, *cat);
+                    assert_eq!(i1, format!("{stem}.index"), "index file name for category {:?} expansion {ex} chunk {chunk}", cat);
+                    assert_eq!(i2, format!("{stem}.index2"), "index2 file name for category {:?} expansion {ex} chunk {chunk}", cat);
+                    assert!(seen.insert(i1) && seen.insert(i2), "file names are unambiguous");
+                    for n in 0..8u32 {
+                        let d = r.dat_filename(chunk, *cat, n);
+                        assert_eq!(d, format!("{stem}.dat{n}"), "dat file name for category {:?} expansion {ex} chunk {chunk} file {n}", cat);
+                        assert!(seen.insert(d), "file names are unambiguous");
+                        cases += 1;
+                    }
+                }
+            }
+        }
+    }
+    println!("NATIVE native_repo_filenames cases={cases}");
+}
